@@ -92,7 +92,7 @@ pub fn run_job(job: &Job, judge: &Judge) -> JobOut {
             }
         }
     };
-    let alpha = Alphabet { default_q: job.default_q, ..Alphabet::standard(job.spec.n()).with_pattern(job.pattern.clone()) };
+    let alpha = Alphabet { default_q: job.default_q, ..Alphabet::standard(job.spec.handles()).with_pattern(job.pattern.clone()) };
     for_each_script(&alpha, len, job.max_dev, |s, _| one(s, &mut out));
     out.max_dev_done = job.max_dev;
     if job.product_depth > 0 && len > 0 {
@@ -101,7 +101,7 @@ pub fn run_job(job: &Job, judge: &Judge) -> JobOut {
         let qs = [0., 0.75];
         let ks = [0u64, thr_k_of(THRESHOLDS[4])];
         let offs = [Some(0.), Some(-1.001), Some(-100.), None];
-        let n = job.spec.n().min(2);
+        let n = job.spec.handles().min(2);
         let tail: Vec<StepScript> = (depth + 1..=len).map(|t| alpha.default_step(t)).collect();
         for_each_product(n, &qs, &ks, &offs, depth, false, |head| {
             let mut s = head.to_vec();
@@ -118,7 +118,7 @@ pub fn run_job(job: &Job, judge: &Judge) -> JobOut {
         let lspec = job.spec.clone().with_s0(*s0);
         let qs = [0.25, 0.75];
         let ks = [0u64, thr_k_of(THRESHOLDS[4])];
-        let n = job.spec.n().min(2);
+        let n = job.spec.handles().min(2);
         let tail: Vec<StepScript> = (depth + 1..=len).map(|t| alpha.default_step(t)).collect();
         let bounds = step_bounds(&job.cfg, &lspec);
         for_each_product(n, &qs, &ks, &offs[..], depth, true, |head| {
@@ -189,7 +189,7 @@ pub fn setter_orders(run: &mut Run, jobs: &[Job], judge: &Judge) {
     std::panic::set_hook(Box::new(|_| {}));
     let usable: Vec<&Job> = jobs.iter().filter(|j| j.cfg.reachable_by_setters() && j.cfg.history == 0).collect();
     let outs = par_map(&usable, |_, j| {
-        let alpha = Alphabet { default_q: j.default_q, ..Alphabet::standard(j.spec.n()).with_pattern(j.pattern.clone()) };
+        let alpha = Alphabet { default_q: j.default_q, ..Alphabet::standard(j.spec.handles()).with_pattern(j.pattern.clone()) };
         let mut scripts: Vec<Vec<StepScript>> = vec![];
         for_each_script(&alpha, j.cfg.steps as usize, 1, |s, _| {
             if scripts.len() < 6 {
@@ -338,7 +338,7 @@ pub fn c06(tier: Tier) -> ! {
                         if tier == Tier::Quick && (pi + n + steps as usize) % 2 == 1 {
                             continue;
                         }
-                        for spec in [ProbeSpec::standard(n), ProbeSpec::interior(n), ProbeSpec::standard(n).raw(), ProbeSpec::outside(n), ProbeSpec::near_bound(n)].iter() {
+                        for spec in [ProbeSpec::standard(n), ProbeSpec::interior(n), ProbeSpec::standard(n).raw(), ProbeSpec::outside(n), ProbeSpec::near_bound(n), ProbeSpec::interior(n).aliased()].iter() {
                             // (moves below machine epsilon only from starts where they are representable)
                             if ms == 2e-16 && spec.start != ProbeSpec::near_bound(n).start && spec.start != ProbeSpec::interior(n).start {
                                 continue;
@@ -506,7 +506,7 @@ pub fn c07(tier: Tier) -> ! {
     let mut jobs = vec![];
     for n in 2..=3usize {
         for &(steps, inner) in steps_grid(tier).iter() {
-            for &(kt, fin, ratio) in [(0., None, Some(0.)), (0., None, Some(0.5)), (0.1, None, Some(0.)), (1., None, Some(0.5)), (0.5, Some(0.05), None), (1e-3, None, None), (f64::INFINITY, None, Some(0.))].iter() {
+            for &(kt, fin, ratio) in [(0., None, Some(0.)), (0., None, Some(0.5)), (0.1, None, Some(0.)), (1., None, Some(0.5)), (0.5, Some(0.05), None), (1e-3, None, None), (f64::INFINITY, None, Some(0.)), (-1., None, Some(0.))].iter() {
                 for (pi, pat) in patterns().into_iter().enumerate() {
                     if tier == Tier::Quick && (pi + n + steps as usize) % 2 == 1 {
                         continue;
@@ -541,6 +541,10 @@ pub fn c07(tier: Tier) -> ! {
             return v;
         }
         let mut mask = F_NONE_ACCEPTED | F_BETTER_REJECTED | F_WORSE_ACCEPTED_ZERO_T_FIRST | F_METROPOLIS_FIRST_LOOP;
+        if cfg.kt_start < 0. {
+            // not a temperature: only the clauses that hold whatever kT is are judged
+            mask = F_NONE_ACCEPTED | F_BETTER_REJECTED;
+        }
         if cfg.kt_ratio.is_some() {
             // a zero temperature multiplied by a finite ratio is zero in every loop
             mask |= F_WORSE_ACCEPTED_ZERO_T_LATER;
@@ -1219,7 +1223,7 @@ pub fn c20_library(run: &mut Run, tier: Tier) -> LibC20 {
                             continue;
                         }
                         let _ = pi;
-                        let c = Cfg { steps, inner, kt_start: kt, kt_finish: if k % 2 == 0 { Some(1e-3) } else { None }, kt_ratio: if k % 4 == 1 { Some(0.5) } else { None }, max_step: 0.01, convergence: conv, history: 0 };
+                        let c = Cfg { steps, inner, kt_start: kt, kt_finish: if k % 2 == 0 { Some(1e-3) } else { None }, kt_ratio: if k % 4 == 1 { Some(0.5) } else { None }, max_step: if k % 9 == 4 { 0. } else { 0.01 }, convergence: conv, history: 0 };
                         if c.reachable_by_setters() && k % 5 == 0 {
                             jobs.push((c.with_history(1), pat.clone()));
                             jobs.push((c.with_history(2), pat.clone()));
